@@ -73,7 +73,8 @@ type c01Server struct {
 	Rules     []c01Rule  `json:"rules"`
 	Backends  []string   `json:"backends"` // names the MuxMapper knows
 	CacheSize int        `json:"cacheSize"`
-	BodyLimit int64      `json:"bodyLimit,omitempty"` // clientMaxBodySize of the server
+	BodyLimit int64      `json:"bodyLimit,omitempty"`     // clientMaxBodySize of the server
+	XFF       bool       `json:"xForwardedFor,omitempty"` // server option xForwardedFor
 }
 
 type c01Req struct {
@@ -146,6 +147,7 @@ type c01Out struct {
 	Path    string `json:"path"`
 	Panic   bool   `json:"panic"`
 	Gen     int    `json:"gen"` // identity of the handler invoked (0 = none)
+	XFF     string `json:"xff"` // X-Forwarded-For (first value) as seen by the handler
 }
 
 type c01Obs struct {
@@ -168,7 +170,7 @@ func c01IPSpec(f *c01Filter) *ipfilter.Spec {
 
 func c01Spec(s c01Server, cacheSize int) *Spec {
 	spec := &Spec{Port: 10080, KeepAlive: true, KeepAliveTimeout: "60s", MaxConnections: 10240, CacheSize: uint32(cacheSize), IPFilter: c01IPSpec(s.Filter),
-		ClientMaxBodySize: s.BodyLimit}
+		ClientMaxBodySize: s.BodyLimit, XForwardedFor: s.XFF}
 	for _, r := range s.Rules {
 		rule := &Rule{Host: r.Host, HostRegexp: r.HostRegexp, IPFilter: c01IPSpec(r.Filter)}
 		for _, p := range r.Paths {
@@ -190,6 +192,7 @@ type c01Rec struct {
 	backend string
 	path    string
 	gen     int
+	xff     string
 	called  bool
 }
 
@@ -206,6 +209,7 @@ func (h *c01Handler) Handle(ctx *context.Context) string {
 	h.rec.called = true
 	h.rec.backend = h.name
 	h.rec.gen = h.gen
+	h.rec.xff = req.HTTPHeader().Get("X-Forwarded-For")
 	h.rec.path = req.Path()
 	resp, _ := httpprot.NewResponse(nil)
 	resp.SetStatusCode(http.StatusOK)
@@ -330,6 +334,7 @@ func (cm *c01Mux) serve(r c01Req) (o c01Out) {
 		o.Backend = cm.rec.backend
 		o.Path = cm.rec.path
 		o.Gen = cm.rec.gen
+		o.XFF = cm.rec.xff
 	}
 	return
 }
@@ -509,9 +514,9 @@ var (
 	// the full list the schema's httpmethod-array format allows (pkg/v/format.go), in its order
 	c01Methods   = []string{"GET", "HEAD", "POST", "PUT", "PATCH", "DELETE", "CONNECT", "OPTIONS", "TRACE"}
 	c01ReqMeths  = []string{"GET", "HEAD", "POST", "PUT", "PATCH", "DELETE", "CONNECT", "OPTIONS", "TRACE", "mGET", "get", "mPOST", "PURGE"}
-	c01HdrKeys   = []string{"X-Test", "x-env", "Accept", "X-TEST", "X-Forwarded-Host", "X-Forwarded-For"}
-	c01HdrVals   = []string{"v1", "v2", "v3", "", "V1", "v10", "a.com", "8.8.8.8"}
-	c01HdrREs    = []string{`^v[0-9]$`, `^$`, `1`, `.*`, `^v1`}
+	c01HdrKeys   = []string{"X-Test", "x-env", "Accept", "X-TEST", "X-Forwarded-Host", "X-Forwarded-For", "X-Real-Ip", "X-Forwarded-For"}
+	c01HdrVals   = []string{"v1", "v2", "v3", "", "V1", "v10", "a.com", "8.8.8.8", "10.0.1.1", "10.0.0.8"}
+	c01HdrREs    = []string{`^v[0-9]$`, `^$`, `1`, `.*`, `^v1`, `.+`, `^10\.`}
 	c01Rewrites  = []string{"/new", "/n$1", "/r/$2/$1", "/new/", "/", "new", "$1", "v2/$1", "$2", "n$1/"}
 	c01Backends  = []string{"A", "B", "C"}
 	c01ClientIPs = []string{"10.0.0.8", "10.0.0.9", "10.0.1.1", "192.168.1.1", "8.8.8.8", "2001:db8::1", "9.9.9.9"}
@@ -618,6 +623,7 @@ func c01GenServer(r *vfRand, filtNum int, adv bool) c01Server {
 	if r.Chance(1, 4) {
 		s.BodyLimit = int64(r.PickInt(-1, 1, 8, 16))
 	}
+	s.XFF = r.Bool()
 	malformed := r.Chance(1, 25)
 	nr := r.Range(1, 4)
 	for i := 0; i < nr; i++ {
@@ -769,6 +775,16 @@ func c01GenReq(r *vfRand, s c01Server, withIP bool) c01Req {
 	}
 	if r.Chance(1, 5) { // the same decoded path in another wire encoding
 		q.RawPath = c01EncodePath(r, q.Path)
+	}
+	if r.Chance(1, 12) { // CORS preflight: routed as an OPTIONS request, whatever it announces
+		acrm := q.Method
+		if r.Bool() {
+			acrm = c01Pick(r, c01Methods)
+		}
+		q.Method = "OPTIONS"
+		if r.Chance(3, 4) {
+			q.Headers = append(q.Headers, [2]string{"Access-Control-Request-Method", acrm})
+		}
 	}
 	if r.Chance(1, 25) { // very deep / odd paths: every request still gets exactly its routing outcome
 		switch r.Intn(4) {
